@@ -54,6 +54,27 @@ CHECKS = {
         "class, re-exported bytes and agreement between channels are compared.",
         note="The states are the reachable states of the small model instances; expanding/rotating filters are covered by their own engine.",
         design="6 (C05)", technique=TECH),
+    "C06": dict(
+        category="model_checking",
+        text="spec/Layout.tla is an independent writer and reader of every export format over byte sequences, spec/FNV1a.tla the documented hashing rule "
+        "in byte limbs; spec/TraceLayout.tla re-executes histories recorded from the real structures running the library's default hash and, after every "
+        "step, compares the exported bytes with the reference writer's bytes (Bloom, counting Bloom, count-min, expanding, rotating, cuckoo, counting "
+        "cuckoo; hex form) and the library's answer for every key with the reference reader's answer computed from the exported bytes alone (Bloom, "
+        "counting Bloom, count-min min/mean/mean-min). TLC prints one verdict per trace.",
+        note="TLC is used as an executable reference here (encode/decode fidelity is at the edge of the technique): structures up to ~80 cells, keys up to 8 "
+        "bytes; Bloom geometry from an independent 50-digit evaluation of the documented formula; cuckoo histories with evictions are excluded; the float "
+        "rate is compared as 4 raw bytes; mean-min compared only where no intermediate is negative (floor vs C truncation).",
+        design="6 (C06)", technique="explicit TLA+ reference writer/reader executed by TLC over traces recorded from the implementation (trace validation)"),
+    "C07": dict(
+        category="model_checking",
+        text="spec/Sizing.tla decides the property's inequalities exactly: every float input is the rational num/2^e (float.as_integer_ratio) and "
+        "2^(e+1) <= num*width, 2^e <= (2^e-num)*2^depth, bs*2^(e+1) <= num*2^fbits are evaluated in arbitrary-precision limb arithmetic by TLC on the "
+        "geometry the real constructors report, for powers of two 2^-1..2^-30 and their neighbours 1-2 ulps away, a dyadic grid and seeded random floats; "
+        "Bloom hashes-vs-bits is cross-checked by TLC with a rational enclosure of ln 2, and bits/hashes and the 7% allowance are compared with an independent "
+        "50-digit evaluation; determinism and geometry after every load channel are compared.",
+        note="The Bloom bit count and the theoretical rate involve ln/exp, which TLC cannot evaluate: those two clauses are decided by the harness's "
+        "independent high-precision arithmetic, not by the model (stated in DESIGN section 8).",
+        design="6 (C07), 8", technique="TLA+ specification of the sizing inequalities in exact limb arithmetic, evaluated by TLC on configurations recorded from the implementation"),
     "C08": dict(
         category="model_checking",
         text="Counting Bloom: BloomFamily.tla with Counting=TRUE (invariants NoFalseNegative with outstanding counts, RemoveUndoesAdd); every transition "
@@ -125,6 +146,15 @@ CHECKS = {
         "HHConsistent, STConsistent, STNeverMissing checked by TLC for colliding widths/depths; on the real classes the public tables are compared with "
         "the values the object itself returned (purely observational clauses).",
         note="Key universe of 3-4 keys, up to 3 hitters, thresholds 1..3, depth up to 7.", design="6 (C17)", technique=TECH),
+    "C18": dict(
+        category="model_checking",
+        text="spec/FNV1a.tla is a reference FNV-1a (64/32 bit, seed advancing the offset basis by 31) in byte limbs, self-checked against published test "
+        "vectors; spec/HashRef.tla makes TLC enumerate every key of <= 1 byte (quick) / <= 2 bytes (thorough) plus random longer keys x seeds incl. 2^32, "
+        "2^64/31, 2^64-1 and emit the reference values, which fnv_1a, fnv_1a_32, default_fnv_1a (bytes and text keys) must reproduce; spec/HashMemo.tla "
+        "validates recorded call sequences of all shipped and decorator-built strategies: exactly depth values, unsigned 64-bit range, purity and prefix "
+        "stability through a memo keyed on the key's UTF-8 bytes (which also decides text = bytes), reference values for the default strategy.",
+        note="md5/sha256 digest values are not re-implemented (not claimed by the property); TLC as executable reference, ~1000 hashes/s.",
+        design="6 (C18)", technique="explicit TLA+ reference implementation evaluated by TLC (spec->code) plus TLC trace validation of recorded calls (code->spec)"),
     "C19": dict(
         category="model_checking",
         text="In every source state of every S2C run the harness executes the battery of read-only calls (queries of present and absent keys, statistics, "
